@@ -12,4 +12,5 @@ PROPS = {
     "C11": {"families": [fam("c13.tail", 100, 1500)]},
     "C19": {"families": [fam("scale", 1, 1, seeds=2)]},
     "C04": {"families": [fam("c04.collide", 40, 400)]},
+    "C03": {"families": [fam("c04.collide", 40, 400)]},
 }
